@@ -1,2 +1,3 @@
+pub mod c04;
 pub mod c06;
 pub mod c07;
